@@ -35,3 +35,7 @@ class PostprocessFieldReportsEveryFailingRow(PostprocessField):
 
 
 CONTRACTS += [PostprocessFieldReportsEveryFailingRow]
+
+from contracts.C02_reshape import ReshapeFieldFailureCases  # drop_invalid_rows removes the rows the reshaped failure cases list (by label)
+
+CONTRACTS += [ReshapeFieldFailureCases]
